@@ -10,14 +10,17 @@ VERIF = os.path.dirname(os.path.dirname(os.path.abspath(__file__)))
 SEEDED = os.path.join(VERIF, "seeded")
 
 
+def run_one(pid):
+    p = subprocess.run(["python3-vt", "-m", "afkverif.check", pid, "--tier", "quick"], cwd=VERIF, capture_output=True, text=True)
+    fails = [l.strip()[5:].split(" [")[0] for l in p.stdout.splitlines() if l.strip().startswith("FAIL ")]
+    return pid, (p.returncode, fails, [l for l in p.stdout.splitlines() if "ANALYSIS-ERROR" in l])
+
+
 def run_all():
-    out = {}
-    for i in range(1, 21):
-        pid = "C%02d" % i
-        p = subprocess.run(["python3-vt", "-m", "afkverif.check", pid, "--tier", "quick"], cwd=VERIF, capture_output=True, text=True)
-        fails = [l.strip()[5:].split(" [")[0] for l in p.stdout.splitlines() if l.strip().startswith("FAIL ")]
-        out[pid] = (p.returncode, fails, [l for l in p.stdout.splitlines() if "ANALYSIS-ERROR" in l])
-    return out
+    # the 20 registered quick commands, side by side (they only read /repo)
+    from concurrent.futures import ThreadPoolExecutor
+    with ThreadPoolExecutor(max_workers=16) as ex:
+        return dict(ex.map(run_one, ["C%02d" % i for i in range(1, 21)]))
 
 
 def main():
